@@ -1,5 +1,6 @@
 import CircusProofs.Props.C10
 import CircusProofs.Core.StopRunE
+import CircusProofs.Props.C03
 /-!
 # C10 — operations that FAIL part-way: a worker the daemon is not permitted to signal (EPERM)
 
@@ -20,12 +21,13 @@ rm, quit, decr, reload, kill …) fails part-way.  C10: "when the operation in f
   number of workers): the `stop` of a watcher whose workers the daemon may not signal fails inside the request step —
   slot free, nothing in flight, one reply, the watcher left `stopping` with its workers — and every operation that
   arrives next is accepted.
-* Two histories in which the unchanged code does stay wedged, by evaluation — findings, replayed on the real code
-  by the harness (corpus/C10): `C10_counterexample_failed_restart_wedges` (a failed arbiter `restart` leaves
-  `_restarting` set: every later request, the periodic check and `quit` — also by SIGTERM — are refused with "arbiter
-  is restarting…" although nothing is in flight) and `C10_counterexample_failed_sigkill_wedges` (an `AccessDenied` from
-  the SIGKILL escalation leaves `process.stopping` set: the next stop of that worker polls the flag for ever and
-  never gives the slot back).
+* Two histories in which the code used to stay wedged (findings F33 / F34, replayed on the real code by the harness,
+  corpus/C10) are repaired in the pinned tree and are now positive theorems: since fix 273f512 a failed arbiter
+  `restart` resets `_restarting` and `_stopping` before it re-raises (`C10_failed_restart_resets_flags`, any state;
+  `C10_failed_restart_accepts_next`, the old witness evaluated: the next `incr` and `quit` are accepted); since fix
+  60e14d0 an `AccessDenied` from the SIGKILL escalation clears `process.stopping` before it escapes
+  (`C10_refused_sigkill_clears_stopping`, any state; `C10_kill_after_refused_sigkill_does_not_wait`;
+  `C10_failed_sigkill_next_stop_ends`, the old witness evaluated: the second stop ends and frees the slot).
 -/
 namespace Circus.Core
 
@@ -223,7 +225,7 @@ example : (c10fStop 0).a.slot = some "arbiter_stop_watchers" ∧ (c10fStop 2).a.
     (run (c10fStop 3) [c10fReq "incr" [("name", .str "beta")]]).ws.map (fun w => (w.name, w.np)) = [("alpha", 1), ("beta", 2)] := by
   decide +kernel
 
-/-! ### findings: two histories after which the daemon IS wedged -/
+/-! ### the two repaired findings (F33, F34): the histories after which the daemon used to be wedged -/
 
 /-- the same two watchers with obedient workers, alpha's unsignalable -/
 def c10fR : State :=
@@ -232,20 +234,49 @@ def c10fR : State :=
 /-- an arbiter `restart` (no name: `Arbiter.restart(inside_circusd=True)`) — it fails: alpha cannot be stopped -/
 def c10fR1 : State := run c10fR [c10fReq "restart" [("waiting", .bool true)]]
 
-/-- **counter-example (finding, reproduced on the real code): a failed arbiter `restart` wedges the daemon.**
-    `Arbiter.restart(inside_circusd=True)` sets `_restarting` (and `_stopping`) before it stops the watchers and
-    nothing resets them when `_stop_watchers` raises.  After the failed request (answered with errno 6) nothing is in
-    flight — no future, no frame, no timer, the slot is free — yet `_restarting` is set, `util.synchronized` refuses
-    every state-changing request for ever with "arbiter is restarting…": `incr`, `quit` (also when it comes from
-    SIGTERM: the signal handler dispatches the same `quit`) and the periodic check are all refused, the state does
-    not change any more.  C10 demands that the next request be accepted once the operation has ended. -/
-theorem C10_counterexample_failed_restart_wedges :
-    c10fR1.a.restarting = true ∧ c10fR1.a.slot = none ∧ c10fR1.tops.length = 0 ∧ c10fR1.frames.length = 0 ∧
-    c10fR1.sleepers.length = 0 ∧ c10fR1.ready.length = 0 ∧
-    ((run c10fR1 [c10fReq "incr" [("name", .str "beta")], c10fReq "quit" [], .sigreq true, .check, .wake]).log.drop
-        c10fR1.log.length).map showObs = ["o rep c s113 error 5 -", "o rep c s113 error 5 -", "o conflict", "o nosleeper"] ∧
-    snapshot (run c10fR1 [c10fReq "incr" [("name", .str "beta")], c10fReq "quit" [], .sigreq true, .check, .wake]) =
-      snapshot c10fR1 := by
+/-- `Arbiter.restart(inside_circusd=True)`, spelled out: `_restarting` and `_stopping` are set first, then the
+    watchers are stopped (one `gen.multi` over all of them) under the `try` of fix 273f512 — the continuation
+    `restartInsideAfterStop` receives the outcome of that stop. -/
+theorem C10_restart_inside_body (rec : Rec) (wt : Waiter) (s : State) :
+    arbRestartInside rec wt s =
+      await rec (.arbStopWatchers (iterWatchers false (setRestarting s).2).1 true) .restartInsideAfterStop wt
+        (iterWatchers false (setRestarting s).2).2 := rfl
+
+/-- **since fix 273f512 a failed arbiter `restart` gives the daemon back**: when `_stop_watchers` ends with an
+    exception (whatever it is, in whatever state) the `except Exception:` of `Arbiter.restart` resets `_restarting` and
+    `_stopping` and only then lets the exception go on to the waiter of the coroutine (the `synchronized` wrapper, which
+    releases the slot: `C10_release_whatever_outcome_*`) — nothing else in the state is touched.  `util.synchronized`
+    therefore no longer answers "arbiter is restarting…" after the failure (F33 repaired). -/
+theorem C10_failed_restart_resets_flags (rec : Rec) (e : Exc) (wt : Waiter) (s : State) :
+    runResume rec .restartInsideAfterStop (.exc e) wt s = deliver rec wt (.exc e) (clearRestarting s).2 ∧
+    (clearRestarting s).2.a.restarting = false ∧ (clearRestarting s).2.a.stopping = false ∧
+    (clearRestarting s).2.a.slot = s.a.slot ∧
+    (clearRestarting s).2 = { s with a := { s.a with restarting := false, stopping := false } } :=
+  ⟨rfl, rfl, rfl, rfl, rfl⟩
+
+/-- … and a stop of the watchers that succeeds still ends the restart the way `quit` ends: the loop is stopped -/
+theorem C10_restart_inside_success (rec : Rec) (wt : Waiter) (s : State) :
+    runResume rec .restartInsideAfterStop .unit wt s = arbStopTail rec wt s := rfl
+
+-- non-vacuity: the exception that arrives in the witness below is the `AccessDenied` of alpha's stop, in a state with
+-- both flags set
+example : (runResume (exec 100) .restartInsideAfterStop accessDenied .none
+            { c10fR with a := { c10fR.a with restarting := true, stopping := true } }).2.a.restarting = false := by
+  decide +kernel
+
+/-- **the old F33 witness, evaluated on the repaired code: after the failed arbiter `restart` the next
+    state-changing requests are accepted.**  The failed request is answered with errno 6; afterwards nothing is in
+    flight — no future, no frame, no timer, the slot is free — and `_restarting` = `_stopping` = False: an `incr` of
+    beta is carried out (numprocesses 1 → 2, answered ok) and a `quit` is accepted (`Arbiter.stop` runs and sets
+    `_stopping` again; it fails in its turn on alpha's worker, as any stop of alpha does). -/
+theorem C10_failed_restart_accepts_next :
+    c10fR1.a.restarting = false ∧ c10fR1.a.stopping = false ∧ c10fR1.a.slot = none ∧ c10fR1.tops.length = 0 ∧
+    c10fR1.frames.length = 0 ∧ c10fR1.sleepers.length = 0 ∧ c10fR1.ready.length = 0 ∧
+    ((c10fR1.log.drop c10fR.log.length).filter Obs.isRep).map showObs = ["o rep c s113 error 6 -"] ∧
+    (run c10fR1 [c10fReq "incr" [("name", .str "beta")]]).ws.map (fun w => (w.name, w.np)) = [("alpha", 1), ("beta", 2)] ∧
+    (((run c10fR1 [c10fReq "incr" [("name", .str "beta")]]).log.drop c10fR1.log.length).filter Obs.isRep).map showObs =
+      ["o rep c s113 ok - -"] ∧
+    (run c10fR1 [c10fReq "quit" []]).a.stopping = true := by
   decide +kernel
 
 /-! the polling loop "another kill_process call is already taking care of this process" has one exit: the flag -/
@@ -260,14 +291,67 @@ theorem C10_kill_waits_while_stopping (rec : Rec) (u p : Nat) (sig gt : Option N
   erw [if_pos h1]
   rfl
 
-/-- **… and when that timer fires with the flag still set it waits again** — for ever, if the `kill_process` that set
-    the flag is gone (F34): nothing but the end of that coroutine clears `Process.stopping` -/
+/-- **… and when that timer fires with the flag still set it waits again**: nothing but the end of the
+    `kill_process` that set the flag clears `Process.stopping` — every end of it does, since fix 60e14d0 also the
+    one by an exception from the SIGKILL escalation (`C10_refused_sigkill_clears_stopping`) -/
 theorem C10_kill_wait_reparks_while_stopping (rec : Rec) (p : Nat) (wt : Waiter) (s : State)
     (hst : (getO p s).1.stopping = true) :
     runResume rec (.killWaitOther p) .unit wt s = awaitSleep 100 (.killWaitOther p) wt s := by
   simp only [runResume, bind]
   erw [if_pos hst]
   rfl
+
+/-- … and with the flag cleared the waiting kill ends (it returns False: the other kill took care of the worker) -/
+theorem C10_kill_wait_ends_when_cleared (rec : Rec) (p : Nat) (wt : Waiter) (s : State)
+    (hst : (getO p s).1.stopping = false) :
+    runResume rec (.killWaitOther p) .unit wt s = deliver rec wt (.bool false) s := by
+  simp only [runResume, bind]
+  erw [if_neg (by rw [hst]; simp)]
+  rfl
+
+theorem getO_setObjStopping (p : Nat) (b : Bool) (s : State) (h : ∃ o ∈ s.objs, o.pid = p) :
+    (getO p (setObjStopping p b s).2).1.stopping = b := by
+  obtain ⟨o, ho, hp⟩ := h
+  simp only [getO, setObjStopping, modO, modS, List.find?_map]
+  cases hf : List.find? ((fun x => decide (x.pid = p)) ∘ fun o => if o.pid = p then { o with stopping := b } else o) s.objs with
+  | none =>
+    have := List.find?_eq_none.mp hf o ho
+    simp [hp] at this
+  | some o' =>
+    have h1 := List.find?_some hf
+    simp only [Function.comp, decide_eq_true_eq] at h1
+    simp only [Option.map_some, Option.getD_some]
+    split
+    · rfl
+    · rename_i hne
+      rw [if_neg hne] at h1
+      exact absurd h1 hne
+
+/-- **since fix 60e14d0 a refused SIGKILL escalation leaves the `Process` object with `stopping = False`**: when
+    `send_signal_process(process, SIGKILL, recursive=True)` fails at the end of the grace period (`AccessDenied`: the
+    daemon may not signal the worker or one of its descendants), `kill_process` hands that exception to its waiter in
+    a state in which the worker's `Process` object (any worker the watcher still knows) is no longer marked
+    `stopping` (F34 repaired). -/
+theorem C10_refused_sigkill_clears_stopping (rec : Rec) (u p : Nat) (wt : Waiter) (s : State)
+    (hden : (sendSignalProcess u p 9 true s).1 = false)
+    (hobj : ∃ o ∈ (sendSignalProcess u p 9 true s).2.objs, o.pid = p) :
+    ∃ s1, killFinish rec u p true wt s = deliver rec wt accessDenied s1 ∧ (getO p s1).1.stopping = false :=
+  ⟨_, C03_escalation_denied rec u p wt s hden, getO_setObjStopping p false _ hobj⟩
+
+/-- **… so a later kill of that worker does not wait**: a `kill_process` that finds `stopping = False` does not
+    take the "another kill_process call is already taking care of this process" branch — it starts with the stop
+    signal (`C03_stop_signal_first`; here for a watcher without `stop_children`): nothing is parked on the flag. -/
+theorem C10_kill_after_refused_sigkill_does_not_wait (rec : Rec) (u p : Nat) (sig gt : Option Nat) (wt : Waiter) (s : State)
+    (hns : (getO p s).1.stopping = false) (hsc : (getW u s).1.stopChildren = false) :
+    killProcess rec u p sig gt wt s =
+      (match (sendSignal u p (sig.getD (getW u s).1.stopSignal) s).1 with
+       | .ok =>
+        killLoop rec u p (sig.getD (getW u s).1.stopSignal) 0 (pollsOf (gt.getD (getW u s).1.graceful)) wt
+          (setObjStopping p true (notify u "kill" (some p) "-"
+            (sendSignal u p (sig.getD (getW u s).1.stopSignal) s).2).2).2
+       | .noSuch => deliver rec wt (.bool false) (sendSignal u p (sig.getD (getW u s).1.stopSignal) s).2
+       | .denied => deliver rec wt accessDenied (sendSignal u p (sig.getD (getW u s).1.stopSignal) s).2) :=
+  C03_stop_signal_first rec u p sig gt wt s hns hsc
 
 /-- one watcher whose `before_signal` hook vetoes the stop signal, its worker unsignalable; graceful_timeout 100 ms -/
 def c10fK : State :=
@@ -280,26 +364,29 @@ def c10fK1 : State := run c10fK [c10fReq "stop" [("name", .str "alpha"), ("waiti
 def c10fK2 (n : Nat) : State :=
   run c10fK1 (c10fReq "stop" [("name", .str "alpha"), ("waiting", .bool true)] :: List.replicate n .wake)
 
-/-- **counter-example (finding, reproduced on the real code): an `AccessDenied` from the SIGKILL escalation leaves
-    `process.stopping` set, and the next stop of that worker never ends.**  The first stop fails cleanly (one reply,
-    errno 6, slot free, nothing in flight) — but `kill_process` was left by the exception between
-    `process.stopping = True` and `process.stopping = False`.  The second stop finds the flag set and takes the
-    "another kill_process call is already taking care of this process" branch: it polls the flag every 100 ms —
-    nobody will ever clear it.  After 40 firings (4 s of virtual time against a graceful_timeout of 100 ms) the slot
-    is still held by `watcher_stop`, no reply has been written, the next timer is pending: the daemon answers
-    "already running" to every state-changing request from now on.  (Evaluated for 40 firings; the loop
-    `kill_process: while process.stopping: yield tornado_sleep(0.1)` has no other exit.) -/
-theorem C10_counterexample_failed_sigkill_wedges :
+/-- **the old F34 witness, evaluated on the repaired code: after a stop that failed in the SIGKILL escalation the next
+    stop of that worker ends.**  The first stop fails cleanly (one reply, errno 6, slot free, nothing in flight) and
+    the worker's `Process` object is not marked `stopping` any more.  The second stop therefore does not poll the flag:
+    it goes through the same kill (vetoed stop signal, grace period, refused SIGKILL) and after one timer firing it
+    has ended — again errno 6, the slot free, nothing in flight, the flag cleared; the daemon stays responsive. -/
+theorem C10_failed_sigkill_next_stop_ends :
     c10fK1.a.slot = none ∧ c10fK1.tops.length = 0 ∧ c10fK1.frames.length = 0 ∧ c10fK1.sleepers.length = 0 ∧
     (c10fK1.log.drop c10fK.log.length).map showObs =
       ["o ev 97.108.112.104.97 hook_success - before_signal", "o ev 97.108.112.104.97 kill 100 -",   -- = "alpha"
        "o ev 97.108.112.104.97 hook_success - before_signal", "o sig 100 9 r!", "o rep c s113 error 6 -"] ∧
-    c10fK1.objs.map (fun o => (o.pid, o.stopping)) = [(100, true)] ∧
-    (c10fK2 40).a.slot = some "watcher_stop" ∧ (c10fK2 40).sleepers.length = 1 ∧
-    (c10fK2 40).log.length = c10fK1.log.length ∧ (c10fK2 40).k.now = c10fK1.k.now + 4000 := by
+    c10fK1.objs.map (fun o => (o.pid, o.stopping)) = [(100, false)] ∧
+    (c10fK2 0).a.slot = some "watcher_stop" ∧ (c10fK2 0).sleepers.length = 1 ∧
+    (c10fK2 1).a.slot = none ∧ (c10fK2 1).tops.length = 0 ∧ (c10fK2 1).frames.length = 0 ∧ (c10fK2 1).sleepers.length = 0 ∧
+    ((c10fK2 1).log.drop c10fK1.log.length).map showObs =
+      ["o ev 97.108.112.104.97 hook_success - before_signal", "o ev 97.108.112.104.97 kill 100 -",
+       "o ev 97.108.112.104.97 hook_success - before_signal", "o sig 100 9 r!", "o rep c s113 error 6 -"] ∧
+    (c10fK2 1).objs.map (fun o => (o.pid, o.stopping)) = [(100, false)] := by
   decide +kernel
 
--- the hypothesis of C10_kill_waits_while_stopping / C10_kill_wait_reparks_while_stopping in the wedged state
-example : (getO 100 c10fK1).1.stopping = true ∧ (getO 100 (c10fK2 40)).1.stopping = true := by decide +kernel
+-- the hypotheses of C10_refused_sigkill_clears_stopping / C10_kill_after_refused_sigkill_does_not_wait /
+-- C10_kill_wait_ends_when_cleared are satisfiable: the state after the failed first stop; and of
+-- C10_kill_waits_while_stopping / C10_kill_wait_reparks_while_stopping: the same worker during the second stop's grace period
+example : (getO 100 c10fK1).1.stopping = false ∧ (getW 1 c10fK1).1.stopChildren = false ∧
+    (getO 100 (c10fK2 0)).1.stopping = true := by decide +kernel
 
 end Circus.Core
